@@ -24,6 +24,7 @@ import (
 	"encoding/json"
 	"errors"
 	"fmt"
+	"github.com/containerd/nri/pkg/api"
 	"io"
 	"os"
 	"path/filepath"
@@ -47,6 +48,9 @@ type Fault struct {
 	// As (kind herr): which error value the handler returns over its healthy connection
 	// ("" = a plain errors.New). Several LOOK like transport or timeout failures.
 	As string `json:"as"`
+	// Upd: the plugin has an unsolicited UpdateContainers call on its way to the runtime (issued
+	// from inside the handler, so it queues behind the request in progress) when it fails
+	Upd bool `json:"upd"`
 }
 
 // HandlerErrs are the error values a handler may return; the text each must leave in the error
@@ -152,6 +156,10 @@ func runOnce(dir string, in *In) (obs Obs) {
 	hook := func(p *rt.Plugin, ev int, req string) error {
 		if req != "fault" {
 			return nil
+		}
+		if in.Fault.Upd {
+			go p.UpdateContainers([]*api.ContainerUpdate{{ContainerId: "other"}})
+			time.Sleep(3 * time.Millisecond) // let it reach the runtime and queue behind this request
 		}
 		switch in.Fault.Kind {
 		case "herr":
@@ -583,6 +591,10 @@ func Run(o *hx.Opts, w *lineio.Writer) error {
 			// events
 			for _, k := range []string{"none", "stop-before", "kill-before", "kill-during", "kill-after", "hang", "slow", "herr"} {
 				add(mk(ev, pos, Fault{Kind: k}, raw))
+			}
+			// … with an unsolicited update of the failing plugin queued behind the request
+			for _, k := range []string{"none", "kill-during", "hang", "herr"} {
+				add(mk(ev, pos, Fault{Kind: k, Upd: true}, raw))
 			}
 			// handler errors that LOOK like transport / timeout failures, over a healthy connection
 			for _, as := range HandlerErrs {
